@@ -35,6 +35,11 @@ func (s Sign) String() string {
 	} else {
 		posNegSign = "-"
 	}
+	// the sign is printed separately, so hours and minutes are the magnitude of the offset
+	if offsetSec < 0 {
+		offsetHour = -offsetHour
+		offsetMinute = -offsetMinute
+	}
 	offset := fmt.Sprintf("%s%02d%02d", posNegSign, offsetHour, offsetMinute)
 	return fmt.Sprintf("%s <%s> %s %s", s.Name, s.Email, fmt.Sprint(unixTime), offset)
 }
@@ -157,6 +162,8 @@ func readSign(signString string) (Sign, error) {
 		if _, err := fmt.Sscanf(offsetString, "-%02d%02d", &offsetHour, &offsetMinute); err != nil {
 			return Sign{}, fmt.Errorf("%w: %s", ErrInvalidCommitObject, err)
 		}
+		offsetHour = -offsetHour
+		offsetMinute = -offsetMinute
 	}
 	location := time.FixedZone(" ", 3600*offsetHour+60*offsetMinute)
 	timestamp := time.Unix(unixTime, 0).In(location)
